@@ -25,13 +25,27 @@ Play(t, s, ord, i, acc) ==
            post == RunAll(t, s0)
            rem  == Cardinality(Canon(t, pre) \ Canon(t, post))
            nh   == Len(HeadsOfCall(t, s0)) - 1
+           (* which branch of addBlockOnChain decides this delivery; for a tie of the total QN also how
+              deep the fork point lies below the head and whether comparing with the head block
+              instead of the block above the fork point would decide differently *)
+           dk   == IF o.k # "D" THEN [k |-> "fork", keep |-> FALSE, x |-> FALSE, d |-> 0]
+                   ELSE IF Par(t, b) \notin pre.hashDB THEN [k |-> "orphan", keep |-> FALSE, x |-> FALSE, d |-> 0]
+                   ELSE IF b \in pre.hashDB THEN [k |-> "dup", keep |-> FALSE, x |-> FALSE, d |-> 0]
+                   ELSE IF Par(t, b) = pre.latest THEN [k |-> "ext", keep |-> FALSE, x |-> FALSE, d |-> 0]
+                   ELSE IF Qn(t, b) < Qn(t, pre.latest) THEN [k |-> "less", keep |-> TRUE, x |-> FALSE, d |-> Hgt(t, pre.latest) - Hgt(t, Par(t, b))]
+                   ELSE IF Qn(t, b) > Qn(t, pre.latest) THEN [k |-> "more", keep |-> FALSE, x |-> FALSE, d |-> Hgt(t, pre.latest) - Hgt(t, Par(t, b))]
+                   ELSE LET ln == pre.hidx[Hgt(t, Par(t, b)) + 1] IN
+                        IF ln = None THEN [k |-> "tie-gap", keep |-> TRUE, x |-> FALSE, d |-> Hgt(t, pre.latest) - Hgt(t, Par(t, b))]
+                        ELSE [k |-> "tie", keep |-> PvGreater(t, ln, b), x |-> PvGreater(t, ln, b) # PvGreater(t, pre.latest, b),
+                              d |-> Hgt(t, pre.latest) - Hgt(t, Par(t, b))]
        IN Play(t, post, ord, i + 1,
                [maxRem |-> IF rem > acc.maxRem THEN rem ELSE acc.maxRem,
                 res |-> acc.res \o <<post.res>>,
+                dk |-> acc.dk \o <<dk>>,
                 multiHead |-> acc.multiHead \/ nh > 1,
                 ended |-> acc.ended /\ Ended(post)])
 
-Features(t, ord) == Play(t, InitState(t), ord, 1, [maxRem |-> 0, res |-> <<>>, multiHead |-> FALSE, ended |-> TRUE])
+Features(t, ord) == Play(t, InitState(t), ord, 1, [maxRem |-> 0, res |-> <<>>, dk |-> <<>>, multiHead |-> FALSE, ended |-> TRUE])
 
 Init == tree \in TreesUpTo(N, Gaps) /\ order = <<>>
 (* fork switches only as the last operation (the model state is not carried in the generator, so
